@@ -12,9 +12,9 @@ git checkout -q -- . ; git clean -fdq -e SEEDED -e target
 git apply "$S/patch.diff" || { echo "patch does not apply"; exit 4; }
 suite=$(cargo nextest run --workspace --no-fail-fast --tool-config-file pb:/w/lib/nextest.toml --profile pb --test-threads 8 --offline 2>&1 | grep -E "Summary|^\s+FAIL " | sort -u | head -8 | tr '\n' ';')
 git apply "$S/demo.diff" || { echo "demo does not apply on changed tree"; }
-with=$(cargo test --offline -p chitchat "$FILTER" 2>&1 | grep -E "^test result|panicked at|^test .*FAILED" | head -6 | tr '\n' ';')
+with=$(cargo test --offline -p chitchat "$FILTER" 2>&1 | grep -E "^test result|panicked at|^test .*FAILED" | grep -v "0 passed; 0 failed" | head -6 | tr '\n' ';')
 git apply -R "$S/patch.diff" || echo "cannot revert patch"
-without=$(cargo test --offline -p chitchat "$FILTER" 2>&1 | grep -E "^test result" | head -4 | tr '\n' ';')
+without=$(cargo test --offline -p chitchat "$FILTER" 2>&1 | grep -E "^test result" | grep -v "0 passed; 0 failed" | head -4 | tr '\n' ';')
 git checkout -q -- . ; git clean -fdq -e SEEDED -e target
 echo "SUITE(with change): $suite"
 echo "DEMO(with change): $with"
